@@ -1069,6 +1069,11 @@ func (p *Parser) posErr(pos Pos, format string, args ...any) {
 	// 		args[i] = quotedToken(arg)
 	// 	}
 	// }
+	if pos.IsRecovered() {
+		// The error is about a token which was missing and recovered from,
+		// so it has no position of its own; point at where the parser is.
+		pos = p.pos
+	}
 	p.errPass(ParseError{
 		Filename:   p.f.Name,
 		Pos:        pos,
